@@ -277,6 +277,7 @@ fn cmapw_typed<K: KV + Hash + Eq, V: KV>(cx: &mut Ctx, c: &Value) {
     let mut fails: Vec<String> = vec![];
     let shown: Vec<u64> = if keyspace.len() > 400 { keyspace.iter().step_by(keyspace.len() / 300).copied().collect() } else { keyspace.clone() };
     run_map_history(&f, &ops, &mut refs, &|k| route[&k], if ctor % 4 >= 2 { Some(&log) } else { None }, &shown, &mut fails);
+    if c["gen"].is_object() { let full = refs.iter().filter(|r| r.ents.len() >= r.cap).count(); cx.sum.dist(if full * 2 >= refs.len() { "cmapw_big_history_most_shards_full" } else { "cmapw_big_history_few_shards_full" }); }
     if let Some(x) = fails.first() { cx.sum.fail(&cell, None, c.clone(), x); }
 }
 
@@ -371,6 +372,8 @@ pub(super) fn lrubig_case(cx: &mut Ctx, c: &Value) {
         }
     });
     if let Err(p) = r { fails.push(format!("panicked: {}", p)); }
+    // a big history that never fills the map would be vacuous: count them
+    if seen == 0 { cx.sum.dist("lrubig_history_without_eviction"); } else { cx.sum.dist("lrubig_history_with_evictions"); }
     if let Some(x) = fails.first() { cx.sum.fail(cell, None, c.clone(), x); }
 }
 
@@ -554,14 +557,15 @@ pub(super) fn pcw_case(cx: &mut Ctx, c: &Value) {
                 12 => { let g = cache.file_size(fid);
                         match slots[si].file.filter(|_| !slots[si].closed) { Some(fi) => if g != Ok(contents[fi].len()) { fails.push(format!("file_size() = {:?}, the file has {} bytes", g, contents[fi].len())); },
                                                                               None => if g.is_ok() { fails.push(format!("file_size(id without a file) = {:?}", g)); } } }
-                13 => match cache.register(-1) { Ok(v) => { if slots.iter().any(|s| s.fid == v) { fails.push(format!("register_file(-1) returned id {}, which is in use", v)); } slots.push(Slot { fid: v, file: None, closed: false, alts: HashMap::new() }); }
-                                                  Err(e) => fails.push(format!("register_file(-1) failed: {}", e)) },
+                // fd -1 is the virtual id of a memory store; any other descriptor is refused today (were it accepted, the id has no file behind it)
+                13 => match cache.register(if a == 0 { -1 } else { a as i32 }) { Ok(v) => slots.push(Slot { fid: v, file: None, closed: false, alts: HashMap::new() }),
+                                                  Err(e) => if a == 0 { fails.push(format!("register_file(-1) failed: {}", e)); } },
                 14 | 17 => {
                     let Some(fi) = slots[si].file else { continue; };
                     if code == 17 { let r = cache.close(fid); if r.is_err() && !slots[si].closed { fails.push(format!("close_file failed: {:?}", r)); } slots[si].closed = true; slots[si].alts.clear(); }
                     match cache.open(&paths[fi]) {
-                        Ok(v) => { if slots.iter().any(|s| s.fid == v) { fails.push(format!("open_file returned id {}, which was handed out before", v)); }
-                                   let ns = Slot { fid: v, file: Some(fi), closed: false, alts: HashMap::new() };
+                        // (which id comes back is not constrained: only the bytes read through it are)
+                        Ok(v) => { let ns = Slot { fid: v, file: Some(fi), closed: false, alts: HashMap::new() };
                                    if code == 17 { slots[si] = ns; } else { slots.push(ns); } }
                         Err(e) => fails.push(format!("open_file failed: {}", e)),
                     }
@@ -593,7 +597,7 @@ fn gen_wops(r: &mut Rng, files: &[(u64, u64, u64)], n: usize, single: bool) -> V
                 0 | 1 => ops.push((10, sl, page, 0, 0)),
                 2 => ops.push((11, sl, 0, 0, 0)),
                 3 => ops.push((12, sl, 0, 0, 0)),
-                4 => { if nslots < 6 { ops.push((13, 0, 0, 0, 0)); nslots += 1; } }
+                4 => { if r.chance(1, 5) { ops.push((13, 0, 7, 0, 0)); } else if nslots < 6 { ops.push((13, 0, 0, 0, 0)); nslots += 1; } }
                 5 => { if nslots < 6 { ops.push((14, sl, 0, 0, 0)); nslots += 1; } }
                 6 | 7 => ops.push((15, sl, a, b.min(3 * ps), r.below(3) * 5000)),
                 8 => ops.push((16, sl, a, b.min(3 * ps), 0)),
@@ -664,9 +668,9 @@ pub(super) fn fm_case(cx: &mut Ctx, c: &Value) {
     let mut fails: Vec<String> = vec![];
     let r = guarded(|| {
         let fm = FileManager::new();
+        if fm.open_file(format!("{}.does-not-exist", path)).is_ok() { fails.push("open_file of a path that does not exist succeeded".into()); }
         let other = fm.open_file(&path);
         let fid = match fm.open_file(&path) { Ok(f) => f, Err(e) => { fails.push(format!("open_file failed: {:?}", e)); return; } };
-        if other.as_ref().ok() == Some(&fid) || fid == 0 { fails.push(format!("open_file handed out id {} twice (or the reserved id 0)", fid)); }
         let mut closed = false;
         let ps = PAGE_SIZE as u64;
         for &(code, a, b) in &ops {
@@ -927,17 +931,20 @@ pub(super) fn run_wide(cx: &mut Ctx, rng: &mut Rng, th: bool) {
     }
     lap(cx, "cmapw");
     // presets exactly as shipped (shard count and per-shard capacity untouched): memory_optimized 4 x 512, default 16 x 1024
-    for (preset, ctor, kind, n) in [(2u64, 1u64, 0u64, 2700u64), (2, 3, 1, 6000), (0, 3, 0, 18500), (0, 1, 1, 30000)] {
+    for (preset, ctor, kind, n) in [(2u64, 1u64, 0u64, 2700u64), (2, 3, 1, 6000), (0, 3, 0, 20500), (0, 1, 1, 30000)] {
         if preset == 0 && ctor == 1 && !th { continue; }
         cmapw_case(cx, &json!({"cell": "cmapw", "types": 0, "ctor": ctor, "preset": preset, "shipped": true, "nkeys": 0, "gen": {"kind": kind, "n": n, "seed": rng.below(1000)}}));
     }
+    // performance_optimized as shipped: 2 x CPUs shards (skipped where that is not a power of two) of 8192 entries; not filled here
+    cmapw_case(cx, &json!({"cell": "cmapw", "types": 1, "ctor": 3, "preset": 1, "shipped": true, "nkeys": 0, "gen": {"kind": 0, "n": 1500, "seed": rng.below(1000)}}));
     cmapw_case(cx, &json!({"cell": "cmapw", "types": 0, "ctor": 2, "preset": 0, "total": 16 * 300, "nshards": 16, "nkeys": 0, "gen": {"kind": 0, "n": 5600, "seed": rng.below(1000)}}));
     lap(cx, "cmapw_shipped");
-    // capacities around 2^8 and 2^16, the shipped preset capacities (512 / 1024 / 8192), 2^20 + 1 in the thorough tier
+    // capacities around 2^8 and 2^16, the shipped preset capacities (512 / 1024 / 8192), 2^20 + 1
     for &cap in &[255u64, 256, 257, 65535, 65536, 65537] {
         for kind in 0..2u64 {
             if cap > 1000 && kind == 1 && !th { continue; }
-            let n = if kind == 0 { cap + 2000 + rng.below(500) } else { 3 * cap.min(20000) };
+            // enough puts to fill the map although every 11th step removes a key, then a few thousand evictions
+            let n = if kind == 0 { cap + cap / 8 + 2000 + rng.below(500) } else { cap + 1 + (2 * cap).min(20000) };
             lrubig_case(cx, &json!({"cell": "lrubig", "preset": rng.below(4), "cap": cap, "kind": kind, "n": n, "seed": rng.below(1000)}));
         }
     }
@@ -945,7 +952,7 @@ pub(super) fn run_wide(cx: &mut Ctx, rng: &mut Rng, th: bool) {
         let cap = [1024u64, 8192, 512, 1024][preset as usize];
         lrubig_case(cx, &json!({"cell": "lrubig", "preset": preset, "shipped": true, "kind": preset % 2, "n": 2 * cap + 100, "seed": rng.below(1000)}));
     }
-    if th { lrubig_case(cx, &json!({"cell": "lrubig", "preset": 1, "cap": (1u64 << 20) + 1, "kind": 0, "n": (1u64 << 20) + 9000, "seed": 5})); }
+    lrubig_case(cx, &json!({"cell": "lrubig", "preset": 1, "cap": (1u64 << 20) + 1, "kind": 0, "n": (1u64 << 20) + (1u64 << 17) + 9000, "seed": 5}));
 
     lap(cx, "lrubig");
     // page cache: the calls of the first generator with the other public calls mixed in, options toggled
@@ -995,6 +1002,17 @@ pub(super) fn run_wide(cx: &mut Ctx, rng: &mut Rng, th: bool) {
         pcw_case(cx, &json!({"cell": "pcw", "single": single, "preset": 2, "capbytes": capbytes, "opts": 0, "files": [[rng.below(200), len, 1]], "ops": wops_json(&ops)}));
     }
     lap(cx, "pcw_sparse");
+    // huge pages switched on: the smallest capacity the validator accepts then (2 MiB = 512 pages), a file a few pages larger
+    {
+        let cap = zipora::cache::HUGE_PAGE_SIZE as u64;
+        let len = cap + 3 * ps + 5;
+        let mut ops: Vec<WOp> = vec![];
+        let mut o = 0; while o < len { ops.push((0, 0, o, 300_000, 0)); o += 300_000; }
+        ops.extend([(10, 0, 1, 0, 0), (0, 0, ps - 1, 2 * ps + 2, 0), (6, 0, cap - 3, 9, 0), (5, 0, cap - 10, 20, 30), (15, 0, len - 2, 10, 1), (9, 0, 0, 0, 0), (0, 0, 0, 2 * ps, 0)]);
+        for single in [false, true] {
+            pcw_case(cx, &json!({"cell": "pcw", "single": single, "preset": 1, "capbytes": cap, "opts": 16, "files": [[11, len, 0]], "ops": wops_json(&ops)}));
+        }
+    }
     // a file larger than the smallest shipped preset (memory_optimized, 32 MiB): read through, read again (evicted and reloaded)
     {
         let cap = PageCacheConfig::memory_optimized().capacity as u64;
